@@ -57,9 +57,9 @@ Example C11_ex_scan :
   match ex_diff with
   | Some o => sc_cnt o = mkCnt 2 0 0 2 1 0 0 /\ diff_exit o = 2 /\
               match nth 0 (c_disks (sc_content o)) None with
-              | Some d => map cf_name (cd_files d) = [101%N; 102%N] /\ cd_links d = [mkCL 110 112 false] /\ cd_dirs d = [121%N] /\
+              | Some d => map cf_name (cd_files d) = [101%N; 102%N] /\ cd_links d = [mkCL 110%N 112%N false] /\ cd_dirs d = [121%N] /\
                           (* the rewritten file: no BLK block left; under diff the past hash is not trusted *)
-                          map cf_blocks (cd_files d) = [[mkFB SBlk 0 (ex_hf 1 1024); mkFB SBlk 1 (ex_hf 2 976)]; [mkFB SChg 2 HInvalid]]
+                          map cf_blocks (cd_files d) = [[mkFB SBlk 0 (ex_hf 1%N 1024%N); mkFB SBlk 1 (ex_hf 2%N 976%N)]; [mkFB SChg 2 HInvalid]]
               | None => False end
   | None => False end.
 Proof. vm_compute. repeat split; reflexivity. Qed.
